@@ -627,8 +627,10 @@ def gated_memory_program(draw, steer=True, early_virtual=True):
             v = Proj(v, mty)
         pool = list(e_names)
         c = _zero_preserving(draw, pool, 2, thresholds)
-        if prev_enable is not None and draw(st.integers(0, 3)) == 0:
-            c = prev_enable  # a second cell gated by the structurally identical enable expression (written out again)
+        if prev_enable is not None and not steer and draw(st.integers(0, 3)) == 0:
+            # a second cell gated by the structurally identical enable expression (written out again): its inputs then
+            # feed two trees, which is the F-leak shape - only generated when that finding is not steered around
+            c = prev_enable
         prev_enable = c
         c_name = None
         if c is not None and draw(st.integers(0, 2)) == 0:  # the enable through a name, which later statements may reuse
